@@ -222,6 +222,9 @@ func (s *Server) updateTypeCounts(typ string) func() {
 func addSubscription(m *match.Match, s *pb.SubscriptionList, c *matchClient) (remove func()) {
 	var removes []func()
 	prefix := path.ToStrings(s.Prefix, true)
+	// Each query below must get its own backing array: the remove closures
+	// returned by AddQuery retain the query slice.
+	prefix = prefix[:len(prefix):len(prefix)]
 	for _, sub := range s.Subscription {
 		p := sub.GetPath()
 		if p == nil {
